@@ -85,6 +85,7 @@ class StreamResponse(
     _req: Optional["BaseRequest"] = None
     _payload_writer: AbstractStreamWriter | None = None
     _eof_sent: bool = False
+    _close_delimited: bool = False
     _must_be_empty_body: bool | None = None
     _body_length = 0
     _send_headers_immediately = True
@@ -417,7 +418,9 @@ class StreamResponse(
                         writer.enable_chunking()
                         headers[hdrs.TRANSFER_ENCODING] = "chunked"
                 elif not self._must_be_empty_body:
+                    # HTTP/1.0 body without a length: it ends where the connection ends
                     keep_alive = False
+                    self._close_delimited = True
 
         # HTTP 1.1: https://tools.ietf.org/html/rfc7230#section-3.3.2
         # HTTP 1.0: https://tools.ietf.org/html/rfc1945#section-10.4
@@ -501,6 +504,9 @@ class StreamResponse(
             # HEAD, 1xx, 204, 304: like write(), send no body bytes
             data = b""
         await self._payload_writer.write_eof(data)
+        if self._close_delimited:
+            # the peer finds the end of this body by the end of the connection
+            self._keep_alive = False
         self._eof_sent = True
         self._req = None
         self._body_length = self._payload_writer.output_size
